@@ -20,6 +20,7 @@ func TestDebugReplay(t *testing.T) {
 	}
 	DebugORGD = true
 	DebugLinger = os.Getenv("DBG_LINGER") != ""
+	DebugHoldStacks = os.Getenv("DBG_HOLD") != ""
 	reps := 1
 	fmt.Sscanf(os.Getenv("DBG_REPEAT"), "%d", &reps)
 	run := func() {
